@@ -276,3 +276,64 @@ pub fn leak(args: &Args) -> Report {
     rep.coverage = json!({"explanation": "debug"});
     rep
 }
+
+/// C06, daemon-level clause: malformed datagrams fed to a running daemon through a transport that
+/// keeps the default `pdu_handler` and decodes like `UdpTransport::receive`.
+pub fn c06_daemon(rep: &mut Report, tier: Tier) {
+    use cfdp_core::pdu::PDUEncode;
+    let mut inputs: Vec<Vec<u8>> = vec![];
+    // inputs that used to panic the decoder, and other short strings
+    inputs.push(vec![0x02, 0x00, 0x00]);
+    inputs.push(vec![0xff]);
+    inputs.push(vec![]);
+    let alpha: [u8; 14] = [0x00, 0x01, 0x02, 0x04, 0x07, 0x08, 0x0f, 0x10, 0x3f, 0x40, 0x7f, 0x80, 0xfe, 0xff];
+    for a in alpha {
+        inputs.push(vec![a]);
+        for b in alpha {
+            inputs.push(vec![a, b]);
+            if tier == Tier::Thorough {
+                for c in alpha {
+                    inputs.push(vec![a, b, c, 0xff]);
+                }
+            }
+        }
+    }
+    // every truncation and a length-field corruption of valid PDUs (with and without CRC)
+    let scn = std::sync::Arc::new(Scenario::base("c06"));
+    let specs = [InjectSpec::Nak(vec![(0, 16), (20, 33)]), InjectSpec::BadEof { checksum_xor: 0, size_delta: 0 }];
+    let valid: Vec<Vec<u8>> = crate::world::on_rt(async {
+        let mut v = vec![];
+        for crc in [false, true] {
+            let mut s = (*scn).clone();
+            s.crc = crc;
+            let w = World::new(std::sync::Arc::new(s));
+            for sp in &specs {
+                v.push(w.inject_pdu(sp).1.encode());
+            }
+        }
+        v
+    });
+    for v in &valid {
+        for t in 0..v.len() {
+            inputs.push(v[..t].to_vec());
+        }
+        for val in [0u16, 1, 2, 255, 65534, 65535] {
+            let mut m = v.clone();
+            m[1] = (val >> 8) as u8;
+            m[2] = val as u8;
+            inputs.push(m);
+        }
+        for idlen in 0..8u8 {
+            let mut m = v.clone();
+            m[3] = (m[3] & 0x88) | (idlen << 4) | idlen;
+            inputs.push(m);
+        }
+    }
+    let (fed, fails) = byte_daemon_run(&inputs);
+    for (clause, sig, detail) in fails {
+        rep.violations.push(Violation { clause: format!("daemon-{}", clause), signature: format!("daemon|{}|{}", clause, sig), detail, replay: json!({"engine": "daemon-bytes"}) });
+    }
+    if let Some(o) = rep.coverage.as_object_mut() {
+        o.insert("daemon_level".into(), json!({"datagrams_fed_to_running_daemon": fed, "of": inputs.len(), "transport": "default pdu_handler + decode as UdpTransport::receive", "then": "valid Metadata must spawn a receive transaction; Put must be answered"}));
+    }
+}
